@@ -15,17 +15,17 @@ LOGIC = ("and", "or")
 
 TASK_WEIGHTS = {
     "C09": {"implicit": 3, "explicit": 2, "split": 2, "editor": 5, "valedit": 3,
-            "cloner": 3, "algebra": 1, "builder": 0.5},
+            "cloner": 3, "algebra": 1, "builder": 0.5, "prober": 1},
     "C14": {"algebra": 7, "editor": 2.5, "valedit": 2, "cloner": 3, "scribbler": 2,
-            "implicit": 2, "explicit": 1, "facealg": 3},
+            "implicit": 2, "explicit": 1, "facealg": 3, "prober": 0.5},
     "C15": {"builder": 6, "scribbler": 3, "implicit": 2, "explicit": 1.5, "editor": 1,
-            "valedit": 1, "algebra": 1, "facealg": 1, "cloner": 1},
+            "valedit": 1, "algebra": 1, "facealg": 1, "cloner": 1, "prober": 1.5},
     "C03": {"editor": 5, "implicit": 2, "explicit": 2, "cloner": 2, "valedit": 2,
-            "algebra": 1, "split": 1},
+            "algebra": 1, "split": 1, "prober": 2},
     "C04": {"implicit": 5, "builder": 3, "editor": 2, "valedit": 1, "cloner": 1,
-            "split": 1, "scribbler": 1},
+            "split": 1, "scribbler": 1, "prober": 2.5},
     "C12": {"explicit": 3, "split": 2, "implicit": 3, "fixedpoint": 3, "editor": 1.5,
-            "valedit": 1, "cloner": 1},
+            "valedit": 1, "cloner": 1, "prober": 2},
 }
 
 ALL_FAULTS = ("alloc_in_apply", "solver_raise", "solver_badshape", "solver_scribble", "solver_nan",
@@ -392,10 +392,15 @@ class LoopBase(Task):
         self.view = None
         self.dt = g.r(0.05, 2.0, 3)      # a time loop normally keeps its step size
         self.alpha = None                # and its storage coefficient (scalar or field)
+        # some scripts keep `-diffusionTerm(D)` (and scaled terms) as objects and pass
+        # the very same objects, in the same order, to every solvePDE call
+        self.stored = g.rng.random() < 0.4
+        self.kept = {}                   # role -> name of the stored modified term
 
     def protected(self):
         s = {self.v} if self.v else set()
         s |= set(self.terms.values())
+        s |= set(self.kept.values())
         if isinstance(self.alpha, str):
             s.add(self.alpha)
         if self.view:
@@ -453,7 +458,7 @@ class LoopBase(Task):
                             "a": {"fn": "linearSourceTerm", "args": [s]}})
                 self.terms["lin"] = t
 
-    def solve_op(self, v, with_transient=True):
+    def solve_op(self, v, with_transient=True, pre=None):
         g = self.g
         rng = g.rng
         specs = []
@@ -461,6 +466,21 @@ class LoopBase(Task):
             if role == "trans" and not with_transient:
                 continue
             s = {"t": t}
+            if self.stored and pre is not None and role != "trans":
+                # the kept object (-M, k*M) is created once and passed as it is
+                if role not in ("diff", "src", "lin"):
+                    specs.append({"t": t})          # used exactly as the builder returned it
+                    continue
+                k = self.kept.get(role)
+                src = g.w.ents.get(k).meta.get("parents", (None,))[0] if k in g.w.ents else None
+                if k is None or k not in g.w.ents or src != t:
+                    k = g.fresh("t")
+                    pre.append({"k": "term_mod", "out": k,
+                                "a": {"t": t, "neg": role == "diff",
+                                      "scale": g.r(0.5, 2.0, 2) if role in ("src", "lin") else None}})
+                    self.kept[role] = k
+                specs.append({"t": k})
+                continue
             if role == "diff":
                 s["neg"] = True
                 if rng.random() < 0.2:
@@ -472,7 +492,8 @@ class LoopBase(Task):
             if role != "trans" and rng.random() < 0.1:
                 s["fmt"] = rng.choice(("csc", "coo"))
             specs.append(s)
-        rng.shuffle(specs)
+        if not (self.stored and pre is not None):
+            rng.shuffle(specs)
         if "unknown_term" in g.sw["faults"] and rng.random() < 0.1:
             specs.insert(rng.randrange(len(specs) + 1), {"bad": "ndim3"})
         if "singular" in g.sw["faults"] and rng.random() < 0.08:
@@ -590,7 +611,10 @@ class ImplicitLoop(LoopBase):
             if isinstance(top["a"]["args"][2], str) and top["a"]["args"][2] == src:
                 top["a"]["args"][2] = 1.0
             ops.append(top)
-        ops.append(self.solve_op(self.v))
+        pre = []
+        sop = self.solve_op(self.v, pre=pre)
+        ops += pre
+        ops.append(sop)
         self.iters += 1
         return ops
 
@@ -865,7 +889,11 @@ class Cloner(Task):
             if sh:
                 v = rng.choice(sh)
         if u < 0.35 and v:
-            return [{"k": "copy", "out": g.fresh("v"), "outb": g.fresh("b"), "a": {"v": v}}]
+            out = g.fresh("v")
+            ops = [{"k": "copy", "out": out, "outb": g.fresh("b"), "a": {"v": v}}]
+            if rng.random() < 0.4:
+                ops += Prober.solve_ops(g, out, g.mesh_of(v))     # the copy is put to use
+            return ops
         if u < 0.42 and v:
             return [{"k": "apply", "a": {"v": v}}]      # an explicit, harmless apply_BCs()
         if u < 0.68 and g.sw["share_bc"]:
@@ -1060,7 +1088,7 @@ class Scribbler(Task):
         rng = g.rng
         cand = [n for n, e in g.w.ents.items()
                 if e.kind in ("t", "f", "v", "b") and e.meta.get("created_kind") in
-                ("build", "binop", "unop", "eval", "copy", "explicit")]
+                ("build", "binop", "unop", "eval", "copy", "explicit", "term_mod")]
         if not cand:
             return []
         return [{"k": "scribble", "a": {"obj": rng.choice(cand), "i": rng.randrange(6),
@@ -1116,6 +1144,65 @@ class FixedPoint(LoopBase):
         return ops
 
 
+class Prober(Task):
+    """Puts variables to use that have not been solved since something happened to
+    them: fresh copies, explicit results, new sharers of a BC object, variables
+    whose (possibly shared) BCs were edited and consumed by somebody else.  The
+    checks without shadow solves (C03, C04, C12, C15) see a stale boundary system
+    only at a real solve."""
+    kind = "prober"
+
+    @staticmethod
+    def solve_ops(g, v, m):
+        rng = g.rng
+        ops = []
+        D = g.pick("f", lambda e: e.meta["mesh"] == m and e.meta.get("created_kind") == "face")
+        if D is None or rng.random() < 0.3:
+            D = g.fresh("f")
+            ops.append({"k": "face", "out": D, "a": {"m": m, "scalar": g.r(0.3, 2.0, 2)}})
+        tD = g.fresh("t")
+        ops.append({"k": "build", "out": tD, "a": {"fn": "diffusionTerm", "args": [D]}})
+        tT = g.fresh("t")
+        ops.append({"k": "build", "out": tT,
+                    "a": {"fn": "transientTerm", "args": [v, g.r(0.05, 2.0, 3), g.r(0.5, 3.0, 2)]}})
+        ops.append({"k": "solve", "a": {"v": v, "terms": [{"t": tT}, {"t": tD, "neg": True}],
+                                        "solver": None}})
+        ops.append({"k": "drop", "a": {"names": [tD, tT]}})
+        return ops
+
+    def make_plan(self):
+        g = self.g
+        w = g.w
+        rng = g.rng
+        cand = []
+        for n in g.names("v"):
+            e = w.ents[n]
+            if e.meta.get("noprecalc"):
+                continue
+            b = w.ents.get(e.meta.get("bc"))
+            lc = e.meta.get("last_consume", -1)
+            score = 0
+            if b is not None and b.meta.get("last_edit", -1) > lc:
+                score += 2
+            if b is not None and any(w.ents[s_].meta.get("last_consume", -1) > lc
+                                     for s_ in w.sharers(b.name) if s_ != n):
+                score += 2
+            if e.meta.get("origin") in ("copy", "explicit-result", "given-BC", "with-ghosts") \
+                    and not e.meta.get("probed"):
+                score += 2
+            if score:
+                cand.append((score, n))
+        if cand and rng.random() < 0.8:
+            top = max(c[0] for c in cand)
+            v = rng.choice([n for sc, n in cand if sc == top])
+        else:
+            v = g.pick("v", lambda e: not e.meta.get("noprecalc"))
+        if v is None:
+            return []
+        w.ents[v].meta["probed"] = True
+        return Prober.solve_ops(g, v, g.mesh_of(v))
+
+
 class FaultInjector(Task):
     """Places faults inside workload: on variables that are dirty, shared or in a loop."""
     kind = "fault"
@@ -1130,6 +1217,36 @@ class FaultInjector(Task):
         return g.rng.choice(pool) if pool else None
 
     def make_plan(self):
+        """A fault, often set up with a pending edit on the same object and followed
+        by a real solve of the target, so that what the failed call left behind is
+        put to use (the checks without shadow solves see it only then)."""
+        g = self.g
+        rng = g.rng
+        ops = self._fault_plan()
+        if not ops:
+            return ops
+        tgt = None
+        for o in ops:
+            a = o.get("a", {})
+            if o["k"] in ("bc_util", "bc_badshape") and a.get("b") in g.w.ents:
+                sh = g.w.sharers(a["b"])
+                tgt = rng.choice(sh) if sh else None
+                if a.get("side") and rng.random() < 0.5:
+                    # an unconsumed edit on the face the failing call is about to touch
+                    pre = {"k": "bc_edit", "a": {"b": a["b"], "side": a["side"], "coef": "c",
+                                                 "how": "assign", "sl": g.slspec(2),
+                                                 "val": Editor.coef_val(g, a["side"], "c")}}
+                    if rng.random() < 0.5:
+                        pre = {"k": "bc_util", "a": {"b": a["b"], "side": a["side"], "fn": "fixedValue",
+                                                     "val": g.scal_or_arr(-2.0, 2.0)}}
+                    ops = [pre] + ops
+            elif o["k"] in ("val_edit", "apply", "solve", "explicit") and a.get("v") in g.w.ents:
+                tgt = a["v"]
+        if tgt and tgt in g.w.ents and not g.w.ents[tgt].meta.get("noprecalc") and rng.random() < 0.5:
+            ops = ops + Prober.solve_ops(g, tgt, g.mesh_of(tgt))
+        return ops
+
+    def _fault_plan(self):
         g = self.g
         rng = g.rng
         f = g.sw["faults"]
@@ -1170,7 +1287,9 @@ class FaultInjector(Task):
             return [{"k": "bc_badshape", "a": {"b": b, "side": rng.choice(sides),
                                                "coef": rng.choice("abc")}}]
         if kind == "partial_utility":
-            return [{"k": "bc_util", "a": {"b": b, "side": rng.choice(sides),
+            ls = g.w.ents[b].meta.get("last_edit_side") if b in g.w.ents else None
+            side_ = ls if (ls in sides and rng.random() < 0.6) else rng.choice(sides)
+            return [{"k": "bc_util", "a": {"b": b, "side": side_,
                                            "fn": rng.choice(("fixedValue", "fixedGradient")),
                                            "wrong_shape": True}}]
         if kind == "explicit_badrhs":
@@ -1184,6 +1303,10 @@ class FaultInjector(Task):
             return [{"k": "binop", "out": g.fresh("v"), "outb": g.fresh("b"),
                      "a": {"op": rng.choice(ARITH), "l": {"v": l}, "r": {"v": r}, "fault": True}}]
         if kind == "eval_raises":
+            fv = g.pick("f", lambda e: e.meta["mesh"] == m)
+            if fv and rng.random() < 0.4:
+                return [{"k": "eval", "out": g.fresh("f"), "a": {"fn": "faceeval", "f": "boom", "args": [fv]}},
+                        {"k": "scribble", "a": {"obj": fv, "i": rng.randrange(3), "x": g.r(3.0, 9.0, 2)}}]
             return [{"k": "eval", "out": g.fresh("v"), "outb": g.fresh("b"),
                      "a": {"fn": rng.choice(("funceval", "celleval")), "f": "boom", "args": [v]}}]
         if kind == "update_mismatch":
@@ -1258,4 +1381,4 @@ class FaultInjector(Task):
 TASKS = {"implicit": ImplicitLoop, "explicit": ExplicitLoop, "split": SplitLoop,
          "editor": Editor, "valedit": ValueEditor, "cloner": Cloner, "algebra": Algebra,
          "facealg": FaceAlgebra, "builder": Builder, "scribbler": Scribbler,
-         "fixedpoint": FixedPoint, "fault": FaultInjector}
+         "fixedpoint": FixedPoint, "fault": FaultInjector, "prober": Prober}
